@@ -484,10 +484,10 @@ theorem IP_append (ns : List Name) (proc : List (Name × Name)) (e : Name × Nam
 
 theorem step_import (ns : List Name) (hns : ∀ n ∈ ns, nameWF n = true) (proc : List (Name × Name))
     (g : PGraph Str) (hg : ImpInv ns proc g) (e : Name × Name) (h1 : e.1 ∈ ns) (h2 : nameWF e.2 = true) :
-    ImpInv ns (proc ++ [e]) (addImport none g (absImport (render e.1) (render e.2))) := by
+    ImpInv ns (proc ++ [e]) (addImport₀ none g (absImport (render e.1) (render e.2))) := by
   have w1 := hns _ h1
   have hcl1 : Cl ns e.1 := Cl_self hns h1
-  unfold addImport absImport addHierarchy
+  unfold addImport₀ absImport addHierarchy
   simp only []
   -- the import edge
   have hc1 := createEdge_cons g hg.cons (render e.1) (render e.2) false
@@ -573,7 +573,7 @@ theorem step_import (ns : List Name) (hns : ∀ n ∈ ns, nameWF n = true) (proc
 
 theorem imports_fold (ns : List Name) (hns : ∀ n ∈ ns, nameWF n = true) (l : List (Name × Name)) :
     ∀ (proc : List (Name × Name)) (g : PGraph Str), (∀ e ∈ l, e.1 ∈ ns ∧ nameWF e.2 = true) → ImpInv ns proc g →
-    ImpInv ns (proc ++ l) ((l.map fun e => absImport (render e.1) (render e.2)).foldl (addImport none) g) := by
+    ImpInv ns (proc ++ l) ((l.map fun e => absImport (render e.1) (render e.2)).foldl (addImport₀ none) g) := by
   induction l with
   | nil => intro proc g _ hg; simpa using hg
   | cons e l ih =>
@@ -589,7 +589,7 @@ theorem buildGraph_inv (ns : List Name) (hns : ∀ n ∈ ns, nameWF n = true) (r
     (hraw : ∀ e ∈ raw, e.1 ∈ ns ∧ nameWF e.2 = true) :
     ImpInv ns raw (buildGraph (ns.map render) (raw.map fun e => absImport (render e.1) (render e.2)) none) := by
   have := imports_fold ns hns raw [] _ hraw (addAllModules_inv ns hns).toImpInv
-  simpa [buildGraph] using this
+  simpa [buildGraph, addImport_none_fun] using this
 
 /-! ### module lists given as sets -/
 
